@@ -37,6 +37,9 @@ extern int vb_caught;
 #ifndef VB_MIN
 #define VB_MIN(a, b) (((b) < (a)) ? (b) : (a))
 #endif
+#ifndef VB_MAX
+#define VB_MAX(a, b) (((a) < (b)) ? (b) : (a))
+#endif
 #ifndef VB_UPCAST
 #define VB_UPCAST(p, path) ((p) == NULL ? NULL : &(p)->path)
 #endif
